@@ -471,3 +471,21 @@ pub fn pair_db_provider(entries: Vec<(String, Option<String>, String)>, unknown:
         }
     }))
 }
+
+/// Key database indexed by the access key only (whatever session token the request carries, or none) whose answers
+/// carry `principal_of(kind)` — an assumed-role or federated identity also for a request without a token.
+pub fn principal_provider(secrets: Vec<(String, String)>, kind: u8) -> Provider {
+    use scratchstack_aws_signature::GetSigningKeyResponse;
+    Provider::new(Box::new(move |r| match secrets.iter().find(|(ak, _)| ak == r.access_key()) {
+        Some((_, secret)) => {
+            let c = refmodel::hmac::chain(secret.as_bytes(), &r.request_date().format("%Y%m%d").to_string(), r.region().as_bytes(), r.service().as_bytes());
+            let mut b = GetSigningKeyResponse::builder();
+            b.signing_key(env::ksigning_from_bytes(c.ksigning));
+            if kind != 0 {
+                b.principal(principal_of(kind));
+            }
+            Ok(b.build().unwrap())
+        }
+        None => Err(Box::new(SignatureError::InvalidClientTokenId("The security token included in the request is invalid".into()))),
+    }))
+}
